@@ -41,7 +41,8 @@ def regenerate(run):
 RULE = ("per case: an interface DAG (<= 7 interfaces + Interface; chains, diamonds, explicit/implicit root, "
         "inconsistent orders), 1-3 classes with declarations, 4-6 operand declarations built from argument trees of "
         "depth <= 3 (tuples, lists, one-shot iterables (generator / iter() / map) at any depth, inline Declarations, references to earlier Declarations, implementedBy(cls) leaves "
-        "and operands), all ordered pairs for - and +; a case is non-trivial when some + put an interface in front "
+        "and operands, implementedBy/providedBy(super(B, ob)) operands for self classes sharing B, equal-but-distinct twin "
+        "interfaces as probes for `in`), all ordered pairs for - and +; a case is non-trivial when some + put an interface in front "
         "and some - removed a strict sub-interface; distinct = distinct (sizes, feature flags) signature")
 TRUSTED_BASE = ["Model/Ro.v as the transcription of ro.py / _calculate_sro (validated here through flattened() and "
                 "every extends decision)",
@@ -97,12 +98,47 @@ def _gen_tree(rng, depth, n, class_nodes, ndecl):
     return {"r": rng.randrange(ndecl)}
 
 
+def _mro_nodes(classes, n, node):
+    """CPython's own MRO of the class behind specification ``node`` (plain classes built here, in the
+    harness process, without zope.interface), as specification nodes; object = n + 1"""
+    built = {n + 1: object}
+    for k, cd in enumerate(classes):
+        built[n + 2 + k] = type("K%d" % k, tuple(built[b] for b in cd["bases"]) or (object,), {})
+    back = {v: k for k, v in built.items()}
+    return [back[c] for c in built[node].__mro__]
+
+
+def _gen_supers(rng, classes, n, count):
+    """(this, self) pairs; preferably one ``this`` class shared by two different self classes"""
+    nodes = [n + 2 + k for k in range(len(classes))]
+    mros = {x: _mro_nodes(classes, n, x) for x in nodes}
+    pairs = [(b, s) for s in nodes for b in mros[s] if b != n + 1]
+    by_this = {}
+    for b, s in pairs:
+        by_this.setdefault(b, []).append(s)
+    shared = [b for b, ss in by_this.items() if len(ss) >= 2]
+    chosen = []
+    if shared and rng.random() < 0.8:
+        b = rng.choice(shared)
+        chosen = [(b, s) for s in rng.sample(by_this[b], 2)]
+    while len(chosen) < count and len(chosen) < len(pairs):
+        pr = rng.choice(pairs)
+        if pr not in chosen:
+            chosen.append(pr)
+    out = []
+    for b, s in chosen[:count]:
+        m = mros[s]
+        out.append({"this": b, "self": s, "via": rng.choice(["implementedBy", "implementedBy", "providedBy"]),
+                    "rem": m[m.index(b) + 1:]})
+    return out
+
+
 def _gen_case(rng, tier):
     n = rng.choice([1, 2, 3, 4, 5, 5, 6, 6, 7, 7])
     ifaces = _gen_ifaces(rng, n)
     obj = n + 1
     classes = [{"bases": [], "decl": []}]
-    for k in range(1, rng.choice([1, 1, 2, 3])):
+    for k in range(1, rng.choice([1, 1, 2, 3, 4, 5])):
         prev = [n + 2 + j for j in range(k)]
         bs = sorted(rng.sample(prev, rng.choice([0, 1, 1, min(2, len(prev))])), reverse=True)
         # listing the younger class first is always a valid Python MRO here
@@ -114,10 +150,14 @@ def _gen_case(rng, tier):
             classes.append({"bases": [], "decl": [], "via": rng.choice(["implementer", "classImplements"]),
                             "dtrees": [_gen_tree(rng, 2, n, [], 0) for _ in range(rng.choice([1, 1, 2, 3]))]})
     class_nodes = [n + 2 + k for k in range(len(classes))]
+    supers = _gen_supers(rng, classes, n, rng.choice([0, 2, 2, 3])) if len(classes) > 1 else []
+    super_nodes = [n + 2 + len(classes) + j for j in range(len(supers))]
     nd = rng.choice([4, 5, 6]) if tier == "quick" else rng.choice([5, 6, 7])
     decls = []
     for k in range(nd):
-        if rng.random() < 0.12:
+        if k < len(super_nodes):
+            decls.append({"spec": super_nodes[k]})       # every super specification is an operand
+        elif rng.random() < 0.12:
             decls.append({"spec": rng.choice(class_nodes + [obj])})
         else:
             decls.append({"args": [_gen_tree(rng, 3, n, class_nodes, len(decls))
@@ -133,7 +173,7 @@ def _gen_case(rng, tier):
             ops.append(["nolonger", rng.randrange(0, n + 1) if rng.random() < 0.05 else rng.randrange(1, n + 1)])
         else:
             ops.append(["directly", [_gen_tree(rng, 2, n, class_nodes, len(decls)) for _ in range(rng.choice([0, 1, 2, 3]))]])
-    return {"ifaces": ifaces, "classes": classes, "decls": decls, "radd": radd, "cls": cls, "ops": ops}
+    return {"ifaces": ifaces, "classes": classes, "supers": supers, "decls": decls, "radd": radd, "cls": cls, "ops": ops}
 
 
 def _fixed_cases():
@@ -174,6 +214,22 @@ def _fixed_cases():
                   "radd": [1, 1, 3, 3, 1, 2], "cls": 6,
                   "ops": [["also", [seq("gen", leaf(1), leaf(2))]], ["directly", [seq("iter", leaf(3), leaf(4))]],
                           ["also", [seq("map", leaf(1), seq("gen", leaf(2)))]], ["nolonger", 1]]})
+    # super specifications: diamond D(B, C) and linear E(B) over A, both asked through super(B, .) in one
+    # process, in both orders; plus super(D, D()) and providedBy(super(...))
+    flat = [[0], [0], [0], [0]]
+    kl = [{"bases": [], "decl": []}, {"bases": [], "decl": [1]}, {"bases": [7], "decl": [2]}, {"bases": [7], "decl": [3]},
+          {"bases": [8, 9], "decl": []}, {"bases": [8], "decl": [4]}]
+    for order in ([(8, 11, "implementedBy"), (8, 10, "implementedBy"), (10, 10, "providedBy")],
+                  [(8, 10, "providedBy"), (8, 11, "implementedBy"), (9, 10, "implementedBy")]):
+        sup = []
+        for b, s_, via in order:
+            m = _mro_nodes(kl, 4, s_)
+            sup.append({"this": b, "self": s_, "via": via, "rem": m[m.index(b) + 1:]})
+        cases.append({"ifaces": flat, "classes": kl, "supers": sup,
+                      "decls": [{"spec": 12}, {"spec": 13}, {"spec": 14}, {"spec": 10}, {"args": [leaf(3), leaf(1)]},
+                                {"args": [leaf(11)]}],
+                      "radd": [1, 2, 3, 4, 1, 2], "cls": 10,
+                      "ops": [["also", [leaf(4)]], ["nolonger", 4], ["also", [leaf(2), leaf(4)]]]})
     return cases
 
 
@@ -208,7 +264,7 @@ def _tree(t, decls):
     return "(TDecl %s)" % C.clist([_tree(x, decls) for x in d["args"]])
 
 
-FAIL_TERM = "(mkCase [] [] [] [] [] [] [] [] [] false false [] 0 [] [])"
+FAIL_TERM = "(mkCase [] [] [] [] [] [] [] [] [] [] false false [] 0 [] [] None)"
 
 
 def coq_case(case, obs, mode):
@@ -229,19 +285,28 @@ def coq_case(case, obs, mode):
             inst.append("(None, false, None)")
         else:
             inst.append("(%s, %s, %s)" % (_obs(r["dp"]), C.cbool(r["raised"]), _obs(r["prov"])))
-    dterms = ["(OSpec %d)" % d["spec"] if "spec" in d else "(OArgs %s)" % C.clist([_tree(x, decls) for x in d["args"]])
-              for d in decls]
+    sbase = len(case["ifaces"]) + 2 + len(case["classes"])
+
+    def _operand(d):
+        if "spec" not in d:
+            return "(OArgs %s)" % C.clist([_tree(x, decls) for x in d["args"]])
+        if d["spec"] >= sbase:
+            return "(OSuper %d %s)" % (d["spec"], _nl(case["supers"][d["spec"] - sbase]["rem"]))
+        return "(OSpec %d)" % d["spec"]
+    dterms = [_operand(d) for d in decls]
     cont = ["None" if isinstance(r, dict) else "(Some %s)" % C.clist([C.cbool(b) for b in r]) for r in obs["contains"]]
     n = len(case["ifaces"])
     cdecl = C.clist(["(%d, %s)" % (n + 2 + k, C.clist([_tree(x, decls) for x in cd["dtrees"]]))
                      for k, cd in enumerate(case["classes"]) if cd.get("dtrees") is not None and not cd["bases"]])
-    return "(mkCase %s %s %s %s %s %s %s %s %s %s %s %s %d %s %s)" % (
+    ctw = ["None" if isinstance(r, dict) else "(Some %s)" % C.clist([C.cbool(b) for b in r]) for r in obs["ctwin"]]
+    ptw = "None" if isinstance(obs["ptwin"], dict) else "(Some %s)" % C.clist([C.cbool(b) for b in obs["ptwin"]])
+    return "(mkCase %s %s %s %s %s %s %s %s %s %s %s %s %s %d %s %s %s)" % (
         C.clist(["(%d, %s)" % (k, _nl(bs)) for k, bs in obs["graph"]]), _nl(obs["ifs"]), C.clist(dterms),
-        C.clist([_obs(o) for o in obs["iter"]]), C.clist(cont), C.clist([_obs(o) for o in obs["flat"]]),
+        C.clist([_obs(o) for o in obs["iter"]]), C.clist(cont), C.clist(ctw), C.clist([_obs(o) for o in obs["flat"]]),
         C.clist([C.clist([_obs(o) for o in row]) for row in obs["sub"]]),
         C.clist([C.clist([_obs(o) for o in row]) for row in obs["add"]]),
         C.clist(["(%d, %s)" % (x, _obs(o)) for x, o in zip(case["radd"], obs["radd"])]),
-        C.cbool(obs["unchanged"]), C.cbool(obs["bases_ok"]), cdecl, case["cls"], C.clist(ops), C.clist(inst))
+        C.cbool(obs["unchanged"]), C.cbool(obs["bases_ok"]), cdecl, case["cls"], C.clist(ops), C.clist(inst), ptw)
 
 
 # --------------------------------------------------------------------------- coverage bookkeeping
@@ -366,13 +431,17 @@ def replay_text(case, obs, mode):
         elif cd["decl"]:
             L.append("classImplements(K[%d], %s)" % (node, ", ".join("N[%d]" % x for x in cd["decl"])))
         L.append("N[%d] = implementedBy(K[%d])" % (node, node))
+    for j, sd in enumerate(case.get("supers", [])):
+        L.append("N[%d] = %s(super(K[%d], K[%d]()))   # expected bases: %r" % (
+            n + 2 + len(case["classes"]) + j, sd.get("via", "implementedBy"), sd["this"], sd["self"], sd["rem"]))
+    L.append("T = [InterfaceClass('I%d' % i, ()) for i in range(1, " + str(n + 1) + ")]   # equal-but-distinct twins")
     L.append("D = []")
     for d in case["decls"]:
         L.append("D.append(%s)" % ("N[%d]" % d["spec"] if "spec" in d else
                                    "Declaration(%s)" % ", ".join(_py_tree(x) for x in d["args"])))
     L.append("name = lambda it: [k for o in it for k, v in N.items() if v is o]")
     L.append("for a, A in enumerate(D):")
-    L.append("    print(a, 'iter', name(A), 'flattened', name(A.flattened()), 'contains', [x in A for x in N.values()])")
+    L.append("    print(a, 'iter', name(A), 'flattened', name(A.flattened()), 'contains', [x in A for x in N.values()], 'twins', [t in A for t in T])")
     L.append("    for b, B in enumerate(D): print(a, b, 'sub', name(A - B), 'add', name(A + B))")
     L.append("o = K[%d]()" % case["cls"])
     for op in case["ops"]:
